@@ -118,7 +118,7 @@ func TestUtxoFold(t *testing.T) {
 		tr := ce.GenTree(t, ce.TreeCfg{
 			Families:  []ce.Family{ce.FamNoBIP34, ce.FamFlat, ce.FamNoBIP34, ce.FamWork},
 			MinBlocks: 3, MaxBlocks: ev.Scale(24, 40), MaxInvalid: 1, Txs: true, ForkProb: 20,
-			Maturity: []uint16{1, 1, 2, 3},
+			Maturity: []uint16{1, 1, 2, 3}, OddScripts: true,
 		})
 		steps := genSteps(t, tr)
 		cache := rapid.SampledFrom([]uint64{0, 1 << 10, 64 << 10, 100 << 20}).Draw(t, "utxoCache")
